@@ -666,3 +666,326 @@ Proof.
     split; [lia|]. split; [exact Hk|unfold n_ids in Hr; lia].
 Qed.
 End Final.
+
+(* ---------------------------------------------------------------------------------------------
+   H. metadata renumbering
+   --------------------------------------------------------------------------------------------- *)
+Section DictMore.
+Context {V : Type}.
+
+Lemma find_last_in (rows : list (Z * V)) k v : find_last rows k = Some v -> In (k, v) rows.
+Proof.
+  induction rows as [|[k0 v0] r IH]; cbn [find_last]; [discriminate|].
+  destruct (find_last r k) as [w|] eqn:E.
+  - intros H; injection H as <-. right. now apply IH.
+  - destruct (k =? k0) eqn:E2; [|discriminate]. intros H; injection H as <-. left. f_equal. lia.
+Qed.
+Lemma find_last_none (rows : list (Z * V)) k : (forall kv, In kv rows -> fst kv <> k) -> find_last rows k = None.
+Proof.
+  induction rows as [|[k0 v0] r IH]; intros H; cbn [find_last]; [reflexivity|].
+  rewrite IH by (intros kv Hkv; apply H; now right).
+  specialize (H (k0, v0) (or_introl eq_refl)). cbn [fst] in H. replace (k =? k0) with false by lia. reflexivity.
+Qed.
+
+(* reading after a sequence of shifted assignments: the last assignment to the key, else the old content *)
+Lemma get_fold_set (rows : list (Z * V)) off d c :
+  dict_get (fold_left (fun d kv => dict_set (fst kv + off) (snd kv) d) rows d) c =
+  match find_last rows (c - off) with Some v => Some v | None => dict_get d c end.
+Proof.
+  revert d; induction rows as [|[k0 v0] r IH]; intros d; cbn [fold_left find_last]; [reflexivity|].
+  rewrite IH. cbn [fst snd]. destruct (find_last r (c - off)); [reflexivity|].
+  rewrite dict_get_set. replace (c =? k0 + off) with (c - off =? k0) by lia.
+  destruct (c - off =? k0); reflexivity.
+Qed.
+
+(* the dictionary is kept strictly sorted by key: what sorted(data) returns, no duplicate ids *)
+Lemma dict_set_keys k v (d : list (Z * V)) x : In x (map fst (dict_set k v d)) -> x = k \/ In x (map fst d).
+Proof.
+  induction d as [|[k0 v0] r IH]; cbn [dict_set map fst In]; [intuition congruence|].
+  destruct (k <? k0); [cbn [map fst In]; intuition congruence|].
+  destruct (k =? k0) eqn:E; cbn [map fst In]; [intuition congruence|].
+  intros [H|H]; [intuition congruence|]. destruct (IH H); intuition congruence.
+Qed.
+Lemma dict_set_sorted k v (d : list (Z * V)) :
+  StronglySorted Z.lt (map fst d) -> StronglySorted Z.lt (map fst (dict_set k v d)).
+Proof.
+  induction d as [|[k0 v0] r IH]; intros H; cbn [dict_set map fst]; [repeat constructor|].
+  cbn [map fst] in H. pose proof H as H'. apply StronglySorted_inv in H' as [Hr Hk].
+  destruct (k <? k0) eqn:E1.
+  - cbn [map fst]. constructor; [exact H|]. constructor; [lia|]. rewrite Forall_forall in *. intros x Hx. specialize (Hk x Hx). lia.
+  - destruct (k =? k0) eqn:E2; cbn [map fst].
+    + constructor; [exact Hr|]. rewrite Forall_forall in *. intros x Hx. specialize (Hk x Hx). lia.
+    + constructor; [now apply IH|]. rewrite Forall_forall in *. intros x Hx.
+      destruct (dict_set_keys _ _ _ _ Hx) as [->|Hx']; [lia|now apply Hk].
+Qed.
+Lemma fold_set_sorted (rows : list (Z * V)) off d :
+  StronglySorted Z.lt (map fst d) ->
+  StronglySorted Z.lt (map fst (fold_left (fun d kv => dict_set (fst kv + off) (snd kv) d) rows d)).
+Proof. revert d; induction rows as [|kv r IH]; intros d H; cbn [fold_left]; [exact H|]. apply IH. now apply dict_set_sorted. Qed.
+
+Lemma dict_get_none_lt (d : list (Z * V)) k : Forall (fun x => k < x) (map fst d) -> dict_get d k = None.
+Proof.
+  induction d as [|[k0 v0] r IH]; intros H; cbn [dict_get]; [reflexivity|]. cbn [map fst] in H.
+  inversion H; subst. replace (k =? k0) with false by lia. now apply IH.
+Qed.
+Lemma find_last_sorted (d : list (Z * V)) k : StronglySorted Z.lt (map fst d) -> find_last d k = dict_get d k.
+Proof.
+  induction d as [|[k0 v0] r IH]; intros H; cbn [find_last dict_get]; [reflexivity|].
+  cbn [map fst] in H. apply StronglySorted_inv in H as [Hr Hk]. rewrite (IH Hr).
+  destruct (k =? k0) eqn:E.
+  - rewrite dict_get_none_lt; [reflexivity|]. eapply Forall_impl; [|exact Hk]. intros; lia.
+  - destruct (dict_get r k); reflexivity.
+Qed.
+
+Lemma get_fold_set0 (rows : list (Z * V)) d k :
+  dict_get (fold_left (fun d kv => dict_set (fst kv) (snd kv) d) rows d) k =
+  match find_last rows k with Some v => Some v | None => dict_get d k end.
+Proof.
+  revert d; induction rows as [|[k0 v0] r IH]; intros d; cbn [fold_left find_last]; [reflexivity|].
+  rewrite IH. cbn [fst snd]. destruct (find_last r k); [reflexivity|].
+  rewrite dict_get_set. destruct (k =? k0); reflexivity.
+Qed.
+Lemma read_rows_get (rows : list (Z * V)) k : dict_get (read_rows rows) k = find_last rows k.
+Proof. unfold read_rows. rewrite get_fold_set0. cbn [dict_get]. destruct (find_last rows k); reflexivity. Qed.
+Lemma read_rows_sorted (rows : list (Z * V)) : StronglySorted Z.lt (map fst (read_rows rows)).
+Proof.
+  unfold read_rows. assert (G : forall d, StronglySorted Z.lt (map fst d) ->
+    StronglySorted Z.lt (map fst (fold_left (fun d kv => dict_set (fst kv) (snd kv) d) rows d))).
+  { induction rows as [|kv r IH]; intros d H; cbn [fold_left]; [exact H|]. apply IH. now apply dict_set_sorted. }
+  apply G. constructor.
+Qed.
+End DictMore.
+
+Section Meta.
+Context {A V F : Type}.
+Notation probe := (probe A V F).
+Notation metatab := (metatab V F).
+Variable f : nat.
+
+(* the value written last for the merged id c: the last probe (in order) whose file has a row for c - offset *)
+Fixpoint last_hit (l : list (probe * Z)) (c : Z) : option V :=
+  match l with
+  | [] => None
+  | (p, off) :: r =>
+      match last_hit r c with
+      | Some v => Some v
+      | None => match meta_of f p with Some mt => find_last (mt_rows mt) (c - off) | None => None end
+      end
+  end.
+
+Lemma meta_fold_get (l : list (probe * Z)) st c :
+  dict_get (ms_dict (fold_left (meta_step f) l st)) c =
+  match last_hit l c with Some v => Some v | None => dict_get (ms_dict st) c end.
+Proof.
+  revert st; induction l as [|[p off] r IH]; intros st; cbn [fold_left last_hit]; [reflexivity|].
+  rewrite IH. destruct (last_hit r c); [reflexivity|].
+  unfold meta_step, meta_of. cbn [fst snd]. destruct (nth f (p_meta p) None) as [mt|]; [|reflexivity].
+  cbn [ms_dict]. rewrite get_fold_set, (find_last_sorted _ _ (read_rows_sorted _)), read_rows_get. reflexivity.
+Qed.
+
+Lemma meta_fold_inv (l : list (probe * Z)) st :
+  (ms_field st = None -> ms_dict st = []) ->
+  ms_field (fold_left (meta_step f) l st) = None -> ms_dict (fold_left (meta_step f) l st) = [].
+Proof.
+  revert st; induction l as [|[p off] r IH]; intros st H; cbn [fold_left]; [exact H|].
+  apply IH. unfold meta_step. cbn [fst snd]. destruct (nth f (p_meta p) None); [cbn; discriminate|exact H].
+Qed.
+
+Lemma meta_fold_sorted (l : list (probe * Z)) st :
+  StronglySorted Z.lt (map fst (ms_dict st)) -> StronglySorted Z.lt (map fst (ms_dict (fold_left (meta_step f) l st))).
+Proof.
+  revert st; induction l as [|[p off] r IH]; intros st H; cbn [fold_left]; [exact H|].
+  apply IH. unfold meta_step. cbn [fst snd]. destruct (nth f (p_meta p) None); [|exact H].
+  cbn [ms_dict]. now apply fold_set_sorted.
+Qed.
+
+Variable ps : list probe.
+Definition pairs_from (k0 : nat) (ps' : list probe) : list (probe * Z) :=
+  combine ps' (map (coff_spec ps) (seq k0 (length ps'))).
+
+Lemma pairs_from_cons k0 p r : pairs_from k0 (p :: r) = (p, coff_spec ps k0) :: pairs_from (S k0) r.
+Proof. reflexivity. Qed.
+
+Hypothesis Hwf : Forall wf_probe ps.
+Hypothesis Hrange : meta_in_range f ps.
+
+Lemma no_hit (r : list probe) : forall k1 c, (forall p, In p r -> In p ps) -> c < coff_spec ps k1 ->
+  last_hit (pairs_from k1 r) c = None.
+Proof.
+  induction r as [|p r IH]; intros k1 c Hin Hc; [reflexivity|].
+  rewrite pairs_from_cons. cbn [last_hit].
+  rewrite IH; [|intros q Hq; apply Hin; now right|].
+  - destruct (meta_of f p) as [mt|] eqn:E; [|reflexivity]. apply find_last_none. intros kv Hkv.
+    pose proof (Hrange p mt kv (Hin p (or_introl eq_refl)) E Hkv). lia.
+  - pose proof (goff_mono (@p_clu A V F) ps k1 (S k1) ltac:(lia)). rewrite !coff_goff in *. lia.
+Qed.
+
+Lemma hit_forward (ps' : list probe) : forall k0,
+  (forall j p, nth_error ps' j = Some p -> nth_error ps (k0 + j) = Some p) ->
+  forall k p mt id v, nth_error ps' k = Some p -> meta_of f p = Some mt -> find_last (mt_rows mt) id = Some v ->
+  last_hit (pairs_from k0 ps') (id + coff_spec ps (k0 + k)) = Some v.
+Proof.
+  induction ps' as [|q r IH]; intros k0 Hsub k p mt id v Hk Hm Hv; [destruct k; discriminate|].
+  rewrite pairs_from_cons. cbn [last_hit]. destruct k as [|k]; cbn [nth_error] in Hk.
+  - injection Hk as ->. rewrite Nat.add_0_r.
+    pose proof (Hsub 0%nat p eq_refl) as Hp. rewrite Nat.add_0_r in Hp.
+    pose proof (Hrange p mt (id, v) (nth_error_In _ _ Hp) Hm (find_last_in _ _ _ Hv)) as Hr. cbn [fst] in Hr.
+    rewrite no_hit.
+    + rewrite Hm. replace (id + coff_spec ps k0 - coff_spec ps k0) with id by lia. exact Hv.
+    + intros q Hq. apply In_nth_error in Hq as (j & Hj). eapply nth_error_In. apply (Hsub (S j)). exact Hj.
+    + pose proof (goff_step (@p_clu A V F) ps k0 p Hp) as G. rewrite !coff_goff. unfold n_ids in G. lia.
+  - replace (k0 + S k)%nat with (S k0 + k)%nat by lia.
+    assert (Hsub' : forall j p', nth_error r j = Some p' -> nth_error ps (S k0 + j) = Some p').
+    { intros j p' Hj. replace (S k0 + j)%nat with (k0 + S j)%nat by lia. apply Hsub. exact Hj. }
+    rewrite (IH (S k0) Hsub' k p mt id v Hk Hm Hv). reflexivity.
+Qed.
+
+Lemma hit_backward (ps' : list probe) : forall k0 c v, last_hit (pairs_from k0 ps') c = Some v ->
+  exists k p mt, nth_error ps' k = Some p /\ meta_of f p = Some mt /\
+                 find_last (mt_rows mt) (c - coff_spec ps (k0 + k)) = Some v.
+Proof.
+  induction ps' as [|q r IH]; intros k0 c v H; [discriminate|].
+  rewrite pairs_from_cons in H. cbn [last_hit] in H. destruct (last_hit (pairs_from (S k0) r) c) as [w|] eqn:E.
+  - injection H as ->. destruct (IH _ _ _ E) as (k & p & mt & Hk & Hm & Hv). exists (S k), p, mt.
+    replace (k0 + S k)%nat with (S k0 + k)%nat by lia. cbn [nth_error]. repeat split; assumption.
+  - destruct (meta_of f q) as [mt|] eqn:Em; [|discriminate]. exists 0%nat, q, mt. rewrite Nat.add_0_r.
+    cbn [nth_error]. repeat split; assumption.
+Qed.
+
+Theorem thm_metadata :
+  let out := meta_file f ps (map (coff_spec ps) (seq 0 (length ps))) in
+  Meta_spec f ps out /\
+  match out with Some mt => mt_rows mt <> [] /\ StronglySorted Z.lt (map fst (mt_rows mt)) /\
+                            (exists p mt', In p ps /\ meta_of f p = Some mt' /\ mt_field mt = mt_field mt')
+               | None => forall p mt', In p ps -> meta_of f p = Some mt' -> mt_rows mt' = [] end.
+Proof.
+  cbn zeta. unfold meta_file. fold (pairs_from 0 ps).
+  set (st := fold_left (meta_step f) (pairs_from 0 ps) (mkms None [])).
+  assert (Hget : forall c, dict_get (ms_dict st) c = last_hit (pairs_from 0 ps) c).
+  { intros c. unfold st. rewrite meta_fold_get. cbn [ms_dict dict_get]. destruct (last_hit (pairs_from 0 ps) c); reflexivity. }
+  assert (Hinv : ms_field st = None -> ms_dict st = []) by (apply meta_fold_inv; reflexivity).
+  assert (Hsorted : StronglySorted Z.lt (map fst (ms_dict st))) by (apply meta_fold_sorted; constructor).
+  assert (Hout : forall c, match (match ms_dict st, ms_field st with
+                                  | _ :: _, Some fld => Some (mkmeta fld (ms_dict st)) | _, _ => None end) with
+                           | Some mt => dict_get (mt_rows mt) c | None => None end = dict_get (ms_dict st) c).
+  { intros c. destruct (ms_dict st) as [|x d] eqn:Ed; [reflexivity|].
+    destruct (ms_field st) eqn:Ef; [reflexivity|]. specialize (Hinv eq_refl). discriminate. }
+  split; [split|].
+  - intros k p mt id v Hk Hm Hv. rewrite Hout, Hget.
+    apply (hit_forward ps 0 (fun j p H => H) k p mt id v Hk Hm Hv).
+  - intros c v Hc. rewrite Hout, Hget in Hc. destruct (hit_backward ps 0 c v Hc) as (k & p & mt & Hk & Hm & Hv).
+    exists k, p, mt. repeat split; assumption.
+  - destruct (ms_dict st) as [|x d] eqn:Ed.
+    + (* nothing written: every present file has no rows *)
+      intros p mt' Hp Hm. destruct (mt_rows mt') as [|[id v] rows'] eqn:Er; [reflexivity|exfalso].
+      apply In_nth_error in Hp as (k & Hk).
+      assert (Hv : exists w, find_last (mt_rows mt') id = Some w).
+      { rewrite Er. cbn [find_last]. destruct (find_last rows' id); [eauto|]. rewrite Z.eqb_refl. eauto. }
+      destruct Hv as (w & Hw).
+      pose proof (hit_forward ps 0 (fun j p H => H) k p mt' id w Hk Hm Hw) as Hh.
+      rewrite <- Hget in Hh. discriminate.
+    + destruct (ms_field st) as [fld|] eqn:Ef; [|specialize (Hinv eq_refl); discriminate].
+      cbn [mt_rows mt_field]. split; [discriminate|]. split; [exact Hsorted|].
+      (* the field name is the header of one of the probes that have the file *)
+      clear - Ef. unfold st in Ef.
+      assert (G : forall l s0, ms_field (fold_left (meta_step f) l s0) = Some fld ->
+                  ms_field s0 = Some fld \/
+                  exists (p : probe) (mt' : metatab), In p (map fst l) /\ meta_of f p = Some mt' /\ fld = mt_field mt').
+      { induction l as [|[p off] r IH]; intros s0 H; cbn [fold_left] in H; [now left|].
+        destruct (IH _ H) as [H0|(p' & mt' & Hp' & Hm' & E)].
+        - unfold meta_step in H0. cbn [fst snd] in H0. destruct (nth f (p_meta p) None) as [mt'|] eqn:Em.
+          + cbn [ms_field] in H0. injection H0 as <-. right. exists p, mt'. cbn [map fst]. split; [now left|]. split; [exact Em|reflexivity].
+          + now left.
+        - right. exists p', mt'. cbn [map fst]. split; [now right|]. split; assumption. }
+      destruct (G _ _ Ef) as [H0|(p & mt' & Hp & Hm & E)]; [discriminate|].
+      exists p, mt'. split; [|split; assumption]. unfold pairs_from in Hp.
+      apply in_map_iff in Hp as ([p' o] & <- & Hpo). cbn [fst]. eapply in_combine_l. exact Hpo.
+Qed.
+End Meta.
+
+Section FinalMeta.
+Context {A V F : Type}.
+Notation probe := (probe A V F).
+
+Definition Meta_out (f : nat) (ps : list probe) (out : option (metatab V F)) : Prop :=
+  Meta_spec f ps out /\
+  match out with
+  | Some mt => mt_rows mt <> [] /\ StronglySorted Z.lt (map fst (mt_rows mt)) /\
+               (exists p mt', In p ps /\ meta_of f p = Some mt' /\ mt_field mt = mt_field mt')
+  | None => forall p mt', In p ps -> meta_of f p = Some mt' -> mt_rows mt' = []
+  end.
+
+Theorem thm_metadata_merge (ps : list probe) : wf ps ->
+  exists m, merge ps = Some m /\ length (m_meta m) = n_meta_files /\
+    forall f, (f < n_meta_files)%nat -> meta_in_range f ps -> Meta_out f ps (nth f (m_meta m) None).
+Proof.
+  intros H. destruct (merge_spec ps H) as (m & Hm & _ & _ & _ & _ & E). exists m. split; [exact Hm|].
+  rewrite E. split; [reflexivity|]. intros f Hf Hr.
+  assert (G : nth f (map (fun f0 => meta_file f0 ps (map (coff_spec ps) (seq 0 (length ps)))) (seq 0 n_meta_files)) None
+              = meta_file f ps (map (coff_spec ps) (seq 0 (length ps)))).
+  { unfold n_meta_files in *. destruct f as [|[|[|f]]]; try reflexivity. lia. }
+  rewrite G. exact (thm_metadata f ps Hr).
+Qed.
+End FinalMeta.
+
+(* ---------------------------------------------------------------------------------------------
+   I. what the tagged list contains: exactly the entries of the input arrays, tagged by position
+   --------------------------------------------------------------------------------------------- *)
+Section Tags.
+Context {A V F : Type}.
+Notation probe := (probe A V F).
+Notation tagged := (tagged A).
+
+Definition is_entry (k i0 : nat) (ts : list Z) (am : list A) (tm cl : list Z) (s : tagged) : Prop :=
+  t_probe s = k /\ (i0 <= t_idx s)%nat /\
+  nth_error ts (t_idx s - i0) = Some (t_time s) /\ nth_error am (t_idx s - i0) = Some (t_amp s) /\
+  nth_error tm (t_idx s - i0) = Some (t_tmpl s) /\ nth_error cl (t_idx s - i0) = Some (t_clu s).
+
+Lemma tag_spikes_in k (ts : list Z) : forall i0 (am : list A) (tm cl : list Z) s,
+  length am = length ts -> length tm = length ts -> length cl = length ts ->
+  (In s (tag_spikes k i0 ts am tm cl) <-> is_entry k i0 ts am tm cl s).
+Proof.
+  induction ts as [|t ts IH]; intros i0 [|a am] [|m tm] [|c cl] s L1 L2 L3; try discriminate.
+  - cbn [tag_spikes In]. split; [contradiction|]. intros (_ & _ & H & _). destruct (t_idx s - i0)%nat; discriminate.
+  - cbn [length] in *. cbn [tag_spikes In]. rewrite (IH (S i0) am tm cl s) by lia. unfold is_entry. split.
+    + intros [<-|(E & L & H1 & H2 & H3 & H4)].
+      * cbn [t_probe t_idx t_time t_amp t_tmpl t_clu]. rewrite Nat.sub_diag. cbn [nth_error]. repeat split; try reflexivity; try lia.
+      * replace (t_idx s - i0)%nat with (S (t_idx s - S i0)) by lia. cbn [nth_error]. repeat split; try assumption. lia.
+    + intros (E & L & H1 & H2 & H3 & H4). destruct (Nat.eq_dec (t_idx s) i0) as [Ei|Ne].
+      * left. rewrite Ei, Nat.sub_diag in *. cbn [nth_error] in *. destruct s; cbn in *. congruence.
+      * right. replace (t_idx s - i0)%nat with (S (t_idx s - S i0)) in * by lia. cbn [nth_error] in *.
+        repeat split; try assumption. lia.
+Qed.
+
+Definition is_input (ps : list probe) (k0 : nat) (s : tagged) : Prop :=
+  exists p, (k0 <= t_probe s)%nat /\ nth_error ps (t_probe s - k0) = Some p /\
+    nth_error (p_times p) (t_idx s) = Some (t_time s) /\ nth_error (p_amps p) (t_idx s) = Some (t_amp s) /\
+    nth_error (p_tmpl p) (t_idx s) = Some (t_tmpl s) /\ nth_error (p_clu p) (t_idx s) = Some (t_clu s).
+
+Lemma tagged_from_iff (ps : list probe) : Forall wf_len ps -> forall k0 s, In s (tagged_from k0 ps) <-> is_input ps k0 s.
+Proof.
+  induction 1 as [|p r (L1 & L2 & L3) Hr IH]; intros k0 s; cbn [tagged_from].
+  - split; [contradiction|]. intros (p & _ & H & _). destruct (t_probe s - k0)%nat; discriminate.
+  - rewrite in_app_iff. unfold tag_probe. rewrite (tag_spikes_in k0 _ 0 _ _ _ s L1 L2 L3), (IH (S k0) s).
+    unfold is_entry, is_input. rewrite !Nat.sub_0_r. split.
+    + intros [(E & _ & H)|(q & L & Hq & H)].
+      * exists p. rewrite E, Nat.sub_diag. cbn [nth_error]. split; [lia|]. split; [reflexivity|exact H].
+      * exists q. replace (t_probe s - k0)%nat with (S (t_probe s - S k0)) by lia. cbn [nth_error].
+        split; [lia|]. split; [exact Hq|exact H].
+    + intros (q & L & Hq & H). destruct (Nat.eq_dec (t_probe s) k0) as [E|Ne].
+      * left. rewrite E, Nat.sub_diag in Hq. cbn [nth_error] in Hq. injection Hq as <-.
+        split; [exact E|]. split; [lia|exact H].
+      * right. exists q. replace (t_probe s - k0)%nat with (S (t_probe s - S k0)) in Hq by lia. cbn [nth_error] in Hq.
+        split; [lia|]. split; [exact Hq|exact H].
+Qed.
+
+Theorem thm_input_spikes (ps : list probe) : Forall wf_len ps -> forall s,
+  In s (tagged_concat ps) <->
+  exists p, nth_error ps (t_probe s) = Some p /\
+    nth_error (p_times p) (t_idx s) = Some (t_time s) /\ nth_error (p_amps p) (t_idx s) = Some (t_amp s) /\
+    nth_error (p_tmpl p) (t_idx s) = Some (t_tmpl s) /\ nth_error (p_clu p) (t_idx s) = Some (t_clu s).
+Proof.
+  intros H s. unfold tagged_concat. rewrite (tagged_from_iff ps H 0 s). unfold is_input. rewrite Nat.sub_0_r.
+  split; intros (p & Hp); exists p; [tauto|]. split; [lia|tauto].
+Qed.
+End Tags.
